@@ -37,6 +37,7 @@ import (
 	"github.com/restic/restic/internal/fs"
 	"github.com/restic/restic/internal/global"
 	"github.com/restic/restic/internal/repository"
+	"github.com/restic/restic/internal/restic"
 	"github.com/restic/restic/internal/verifkit"
 	"pgregory.net/rapid"
 )
@@ -102,6 +103,8 @@ const (
 	kFile2Dir     = "type-file2dir"  // file replaced by a directory between lstat and open
 	kFile2Link    = "type-file2link" // file replaced by a symlink between lstat and open
 	kDir2File     = "type-dir2file"  // directory replaced by a file between lstat and open
+	kLink2File    = "type-link2file" // symlink replaced by a regular file right after restic's lstat of it, before the readlink
+	kLink2Dir     = "type-link2dir"  // symlink replaced by a directory at the same moment
 	kVanish       = "vanish"         // removed after the directory listing, before the first lstat
 	kVanishOpen   = "vanish-open"    // same, but the (metadata) open itself reports ENOENT
 	kVanishLate   = "vanish-late"    // removed after a successful lstat, before the open for reading
@@ -218,6 +221,7 @@ type vFaultFileC55 struct {
 	name    string
 	scanner bool
 	served  int
+	swapped bool
 }
 
 func (w *vFaultFileC55) hit() {
@@ -255,7 +259,20 @@ func (w *vFaultFileC55) Stat() (*fs.ExtendedFileInfo, error) {
 		w.hit()
 		return nil, vPathErrC55("lstat", w.name, syscall.EACCES)
 	}
-	return w.File.Stat()
+	fi, err := w.File.Stat()
+	if err == nil && !w.scanner && !w.swapped && (w.f.Kind == kLink2File || w.f.Kind == kLink2Dir) {
+		// the item was a symlink when restic looked at it; now it is something else, so that
+		// its target can no longer be read
+		w.swapped = true
+		w.hit()
+		_ = os.Remove(w.name)
+		if w.f.Kind == kLink2File {
+			_ = os.WriteFile(w.name, []byte("now a regular file"), 0o600)
+		} else {
+			_ = os.Mkdir(w.name, 0o755)
+		}
+	}
+	return fi, err
 }
 
 func (w *vFaultFileC55) ToNode(ignoreXattrListError bool, warnf func(format string, args ...any)) (*data.Node, error) {
@@ -344,7 +361,7 @@ type vCaseC55 struct {
 
 var vKindsFileC55 = []string{kOpenEACCES, kStatEACCES, kReadEACCES, kReadMid, kFile2Dir, kFile2Link, kVanish, kVanishOpen, kVanishLate}
 var vKindsDirC55 = []string{kOpenEACCES, kStatEACCES, kReaddirEACC, kReaddirPart, kDir2File, kVanish, kVanishOpen, kVanishLate, kReaddirEACC, kReaddirPart, kOpenEACCES}
-var vKindsLinkC55 = []string{kStatEACCES, kVanish, kVanishOpen}
+var vKindsLinkC55 = []string{kStatEACCES, kVanish, kVanishOpen, kLink2File, kLink2Dir, kLink2File, kLink2Dir}
 
 func vIsVanishC55(k string) bool { return k == kVanish || k == kVanishOpen }
 
@@ -374,6 +391,7 @@ type vExpectC55 struct {
 	status3   bool            // >= 1 source item unreadable
 	eitherOK  bool            // only "vanish-late" decides: statement leaves 0 or 3 open
 	fire      map[string]bool // faults the archiver must run into
+	optional  []string        // items whose metadata could not be read completely: absent or present, but reported (status 3)
 	nontriv   bool            // >= 1 effective fault below the top level
 	kinds     []string
 }
@@ -430,6 +448,9 @@ func vModelC55(tr vTree, c *vCaseC55) vExpectC55 {
 					x.eitherOK = true // directories: the statement speaks of files; 0 or 3 accepted
 				default:
 					x.status3 = true
+				}
+				if f.Kind == kLink2File || f.Kind == kLink2Dir {
+					x.optional = append(x.optional, p)
 				}
 				if !isTarget(p) {
 					x.nontriv = true
@@ -530,6 +551,20 @@ func vGenCaseC55(t *rapid.T, exec string) (vTree, *vCaseC55) {
 		}
 		used[p] = true
 		c.Faults = append(c.Faults, f)
+	}
+	// symlinks that change type under restic's hands: alone (flavour 2) or on top of the other faults
+	var links []string
+	for _, p := range cand {
+		if tr[p].Kind == 'l' && !used[p] {
+			links = append(links, p)
+		}
+	}
+	if len(links) > 0 && (flavour == 2 || rapid.IntRange(0, 3).Draw(t, "linkswap") == 0) {
+		if flavour == 2 {
+			c.Faults = nil
+		}
+		p := links[rapid.IntRange(0, len(links)-1).Draw(t, "linkpath")]
+		c.Faults = append(c.Faults, vFaultC55{Path: p, Kind: rapid.SampledFrom([]string{kLink2File, kLink2Dir}).Draw(t, "linkkind")})
 	}
 	sort.Slice(c.Faults, func(i, j int) bool { return c.Faults[i].Path < c.Faults[j].Path })
 	c.Parent = rapid.IntRange(0, 3).Draw(t, "parent") == 0
@@ -695,7 +730,7 @@ func vCheckCaseC55(t *rapid.T, st *verifkit.Stats, tr vTree, c *vCaseC55) {
 		out, berr := e.BackupOut(context.Background(), g, targets, BackupOptions{NoScan: c.NoScan, Force: c.Force})
 		backupFSTestHook = nil
 		code = vExitCodeC55(berr)
-		output = fmt.Sprintf("error: %v\n%s%s", berr, out.Stdout, out.Stderr)
+		output = fmt.Sprintf("runBackup returned: %v\n%s%s", berr, out.Stdout, out.Stderr)
 		fired = ffs.Fired()
 	}
 
@@ -764,6 +799,17 @@ func vCheckCaseC55(t *rapid.T, st *verifkit.Stats, tr vTree, c *vCaseC55) {
 		t.Fatalf("exit status 3 without the incomplete-backup warning\n%s", desc())
 	}
 
+	// an item with incomplete metadata must have been reported as an error
+	if len(x.optional) > 0 {
+		marker := "error: "
+		if c.JSON {
+			marker = `"message_type":"error"`
+		}
+		if !strings.Contains(output, marker) {
+			t.Fatalf("symlink(s) %q changed type during the backup (target unreadable) but no error was reported\n%s", x.optional, desc())
+		}
+	}
+
 	// 2. the snapshot exists ...
 	after, err := e.SnapshotIDs()
 	if err != nil {
@@ -775,13 +821,73 @@ func vCheckCaseC55(t *rapid.T, st *verifkit.Stats, tr vTree, c *vCaseC55) {
 	}
 	id := vNewID(before, after)
 	// 3. ... and contains exactly the readable items
-	d, err := e.RestoreEq(id, src, x.want)
+	//    (an item whose metadata could not be read completely may be absent or present: it is looked up
+	//    in the snapshot, counted, and left out of the restore)
+	var ropts RestoreOptions
+	for _, p := range x.optional {
+		nd, err := vNodeAtC55(e, id, filepath.Join(src, filepath.FromSlash(p)))
+		if err != nil {
+			t.Fatalf("%v\n%s", err, desc())
+		}
+		if nd == nil {
+			st.Class("link-swap:absent")
+		} else {
+			st.Class(fmt.Sprintf("link-swap:present,type=%s,target=%q", nd.Type, nd.LinkTarget))
+			ropts.Excludes = append(ropts.Excludes, "/"+p)
+		}
+	}
+	d, err := vRestoreEqC55(e, id, src, x.want, ropts)
 	if err != nil {
 		t.Fatalf("%v\n%s", err, desc())
 	}
 	if d != "" {
 		t.Fatalf("snapshot %s differs from the readable part of the source: %s\n%s", id[:8], d, desc())
 	}
+}
+
+// vNodeAtC55 looks up the node stored for an absolute source path (nil if there is none).
+func vNodeAtC55(e *vEnv, snapshotID, abs string) (*data.Node, error) {
+	var node *data.Node
+	err := e.WithRepo(func(ctx context.Context, repo *repository.Repository) error {
+		id, err := restic.ParseID(snapshotID)
+		if err != nil {
+			return err
+		}
+		if err := repo.LoadIndex(ctx, restic.NoopTerminalCounterFactory); err != nil {
+			return err
+		}
+		sn, err := data.LoadSnapshot(ctx, repo, id)
+		if err != nil {
+			return err
+		}
+		dir, err := data.FindTreeDirectory(ctx, repo, sn.Tree, filepath.ToSlash(filepath.Dir(abs)))
+		if err != nil {
+			return err
+		}
+		tree, err := data.LoadTree(ctx, repo, *dir)
+		if err != nil {
+			return err
+		}
+		finder := data.NewTreeFinder(tree)
+		defer finder.Close()
+		node, err = finder.Find(filepath.Base(abs))
+		return err
+	})
+	return node, err
+}
+
+// vRestoreEqC55 is RestoreEq with restore options (excludes).
+func vRestoreEqC55(e *vEnv, snapshotID, srcDir string, want vTree, opts RestoreOptions) (string, error) {
+	target := e.Scratch("restore-")
+	defer os.RemoveAll(target)
+	if err := e.Restore(snapshotID+":"+filepath.ToSlash(srcDir), target, opts); err != nil {
+		return "", fmt.Errorf("restore %s: %w", snapshotID[:8], err)
+	}
+	got, err := vReadTree(target)
+	if err != nil {
+		return "", err
+	}
+	return vTreeDiff(want, got, true), nil
 }
 
 func TestVerifC55InProcess(t *testing.T) {
